@@ -18,10 +18,18 @@ VERIF_MAIN {
     bv[i] = (unsigned char) IN(0, VMAX);
     if (!present[bk[i]]) { present[bk[i]] = 1; val[bk[i]] = bv[i]; }   /* first one wins */
   }
+#ifdef FIXED_OPS
+  /* one concrete history (stated in the job; long enough to fill several levels), EVERY query symbolic */
+  static const unsigned char fixed_ops[3 * NOPS] = { FIXED_OPS };
+#endif
   for (int i = 0; i < NOPS; i++) {
+#ifdef FIXED_OPS
+    ops[3 * i] = fixed_ops[3 * i]; ops[3 * i + 1] = fixed_ops[3 * i + 1]; ops[3 * i + 2] = fixed_ops[3 * i + 2];
+#else
     ops[3 * i] = (unsigned char) IN(0, 1);
     ops[3 * i + 1] = (unsigned char) IN(0, KMAX);
     ops[3 * i + 2] = (unsigned char) IN(0, VMAX);
+#endif
     if (ops[3 * i] == 0) { present[ops[3 * i + 1]] = 1; val[ops[3 * i + 1]] = ops[3 * i + 2]; }
     else present[ops[3 * i + 1]] = 0;
   }
